@@ -210,6 +210,52 @@ def clause2_timers(ctx, P, cg):
     c03.clause2_siblings(ctx, P, cg)
 
 
+def clause12_registered_for_shutdown(ctx, P, cg):
+    """'a termination signal closes every connection, releases everything': the shutdown sequence (run_jet after the loop returned)
+    can only release what some list knows.  Every handler of an accepted descriptor (the functions handed to accept_common())
+    registers the object it builds for that descriptor in a list - on every path on which it keeps the descriptor, a function is
+    called that links into a list through DIRECT calls only (registration that happens later, from a read callback once enough
+    input has arrived, leaves the connection unknown to the shutdown until then)"""
+    ac = P.fn("linux_io.c:accept_common")
+    handlers = set()
+    for c in P.callers_of(ac):
+        t = P.term(c.fn, c.a[1])
+        if t[0] == "func":
+            handlers.add(t[1])
+    if len(handlers) < 2:
+        raise AnalysisBroken("accept handlers found: %s" % sorted(handlers))
+    direct = {}
+
+    def links(name, depth=0):
+        if name in direct:
+            return direct[name]
+        direct[name] = False
+        g = P.functions.get(name)
+        r = False
+        if g is not None and depth < 6:
+            for i in g.all_insts():
+                if i.op == "call" and i.callee:
+                    if P.srcname_of(i.callee) in ("list_add_tail", "list_add") or links(i.callee, depth + 1):
+                        r = True
+                        break
+        direct[name] = r
+        return r
+    for hn in sorted(handlers):
+        h = P.functions[hn]
+        bad = None
+        n = 0
+        for v in Q.path_views(ctx, P, h):
+            if any(True for _ in v.calls(CLOSERS)):
+                continue       # the descriptor is given up on this path
+            n += 1
+            if not any(i.callee and links(i.callee) for _, i in v.calls()):
+                bad = v
+        ctx.ob("C07.6 R-FINI", h, "accepted-connection-is-registered-for-shutdown", bad is None and n > 0,
+               "%s() keeps an accepted descriptor on a path that registers nothing in any list (directly): until a later callback "
+               "does, the connection and its memory are unknown to the shutdown sequence, which leaves them open / allocated" % h.srcname,
+               witness=bad.witness() if bad else None)
+
+
 CLOSERS = ("close", "socket_close")
 
 
@@ -657,3 +703,4 @@ def run(ctx):
         clause9_hooks_first(ctx, P, cg)
         clause10_failure_exits_agree(ctx, P, cg, own)
         clause11_descriptors_closed_once(ctx, P, cg)
+        clause12_registered_for_shutdown(ctx, P, cg)
